@@ -249,7 +249,7 @@ def run(ctx):
     # ---- systematic: every schedule with at most one preemption of small two-client programs around start/stop/restart
     for j in range(8):
         of = ctx.path("explore%d.json" % j)
-        cmds.append(([PY, REC, "explore", str(j), "8", "24" if quick else "400", str(ctx.seed * 8 + j), of], pyenv()))
+        cmds.append(([PY, REC, "explore", str(j), "8", "100" if quick else "400", str(ctx.seed * 8 + j), of], pyenv()))
         files.append(of)
     run_parallel(cmds, 2400)
     split["record"] = round(time.time() - t1, 1)
